@@ -120,6 +120,7 @@ static int vr_curve_offered(unsigned id, uint32_t flags)
     P(C04_signed_key_exchange_was_verified,  IMPLIES(OK && DHE && !ANON, gh.verify == 1 && gh.key == &g_cert.publicKey && g_in.verify_rc >= 0)) \
     P(C04_signature_covers_the_parameters_of_this_message, IMPLIES(gh.verify >= 1, __CPROVER_same_object(gh.tbs, g_store) && __CPROVER_POINTER_OFFSET(gh.tbs) >= START && \
                                                                    gh.tbs + gh.tbsLen == gh.sig && gh.sigEnd == g_store + BUFN && gh.tbsLen >= 4)) \
+    P(C19_session_keeps_no_pointer_to_freed_memory, VR_LIVE(g_ssl.sec.hint) && VR_LIVE(g_ssl.sec.dhP) && VR_LIVE(g_ssl.sec.dhG) && VR_LIVE(g_ssl.sec.dhKeyPub) && VR_LIVE(g_ssl.sec.premaster) && VR_LIVE(g_ssl.sec.x25519KeyPub)) /* what matrixSslDeleteSession / the next handshake frees again */ \
     P(C19_allocation_failure_is_an_error,    IMPLIES(OK && DHE && !(g_in.flags & SSL_FLAGS_ECC_CIPHER), g_ssl.sec.dhP != NULL && g_ssl.sec.dhG != NULL && g_ssl.sec.dhKeyPub != NULL && g_ssl.sec.premaster != NULL))
 
 int32 parseServerKeyExchange(ssl_t *ssl, unsigned char hsMsgHash[SHA512_HASH_SIZE], unsigned char **cp, unsigned char *end)
